@@ -629,6 +629,7 @@ fn ns_any_auth() {
         ct::AUTH_PID = kani::any();
         ct::AUTH_KIND = kani::any();
         ct::AUTH_SEQ = kani::any();
+        ct::FORGED_SEQ = kani::any();
         ct::AUTH_A = kani::any();
         ct::AUTH_B = kani::any();
         ct::AUTH_TOKEN = kani::any();
@@ -692,7 +693,7 @@ macro_rules! ns_frame_connected {
             }
             kani::cover!(matches!(r, Ok(ServerResult::Payload { .. })), "payload surfaced");
             kani::cover!(disconnected, "client disconnect");
-            kani::cover!(authed && !fresh, "replayed");
+            kani::cover!(genuine && !fresh && !authed, "authentic datagram rejected as a replay");
             std::mem::forget(r);
             assert!(unsafe { ct::NENC } == 0 && s.global_sequence == gs0, "something was sealed in response to a datagram from a connected address");
             // the other slot is never touched
@@ -1035,8 +1036,12 @@ macro_rules! ns_req_guard {
                 }
             }
             assert!(ns_slot_facts(&s, 0) == facts[0] && ns_slot_facts(&s, 1) == facts[1], "connection table changed by a connection request");
-            kani::cover!(replied > 0 && e.kind == 2, "challenge");
-            kani::cover!(replied > 0 && e.kind == 1, "denied");
+            if connected < 2 {
+                kani::cover!(replied > 0 && e.kind == 2, "challenge");
+            }
+            if connected > 0 {
+                kani::cover!(replied > 0 && e.kind == 1, "denied");
+            }
             kani::cover!(valid && replied == 0, "valid but refused");
             std::mem::forget(s);
         }
@@ -1045,6 +1050,7 @@ macro_rules! ns_req_guard {
 ns_req_guard!(ns_req_guard_00_e0, false, false, 0, false);
 ns_req_guard!(ns_req_guard_10_e1, true, false, 1, false);
 ns_req_guard!(ns_req_guard_11_e0, true, true, 0, false);
+ns_req_guard!(ns_req_guard_11_e1, true, true, 1, false);
 ns_req_guard!(ns_req_guard_10_e0_pend, true, false, 0, true);
 
 // ---- C05 / C10 / C17 / C19 / C18: the connection response -------------------------------------------------------
@@ -1115,8 +1121,11 @@ macro_rules! ns_resp_guard {
                 Ok(ServerResult::None) | Err(_) => {}
                 Ok(_) => assert!(false, "payload / disconnect event from a pending address"),
             }
-            kani::cover!(connected, "connects");
-            kani::cover!(replied, "denied");
+            if free {
+                kani::cover!(connected, "connects");
+            } else {
+                kani::cover!(replied, "denied");
+            }
             std::mem::forget(r);
             assert!(s.global_sequence == if replied { gs0 + 1 } else { gs0 }, "server-wide sequence must advance exactly when a handshake reply was sealed with it (nonce reuse under the session key otherwise)");
             if connected {
@@ -1124,6 +1133,7 @@ macro_rules! ns_resp_guard {
                 let slot = if $o0 { 1 } else { 0 };
                 let c = s.clients[slot].as_ref().unwrap();
                 assert!(c.client_id == id_a && c.addr == addr && c.state == ConnectionState::Connected && c.sequence == psq + 1 && c.send_key == skey && c.receive_key == rkey);
+                assert!(c.last_packet_received_time == now && c.last_packet_send_time == now, "a newly connected session must start its timeout period at the response that connected it");
                 assert!(ns_slot_facts(&s, 1 - slot) == facts[1 - slot]);
             } else {
                 assert!(ns_slot_facts(&s, 0) == facts[0] && ns_slot_facts(&s, 1) == facts[1], "connection table changed without a connect event");
@@ -1158,21 +1168,28 @@ fn ns_witness() {
 }
 
 // ---- C18 / C10: the client limit can be raised at run time: the slots must follow (F12) ------------------------
-#[kani::proof]
-#[kani::unwind(40)]
-fn ns_set_max_clients() {
-    ct::reset();
-    unsafe { ONE_SLOT = true };
-    let (mut s, facts) = any_server([true, true]);
-    let n: usize = kani::any();
-    s.set_max_clients(n);
-    let want = if n < NETCODE_MAX_CLIENTS { n } else { NETCODE_MAX_CLIENTS };
-    assert!(s.max_clients == want);
-    assert!(s.clients.len() >= s.max_clients, "the limit was raised but there is no slot for the additional clients: valid handshakes get denied below the limit");
-    assert!(s.clients.len() >= 1 && ns_slot_facts(&s, 0) == facts[0], "existing session disturbed by changing the limit");
-    if s.clients.len() > 1 {
-        assert!(s.clients[1].is_none());
-    }
-    kani::cover!(s.clients.len() == 2, "grown");
-    std::mem::forget(s);
+macro_rules! ns_set_max_clients {
+    ($name:ident, $n:expr) => {
+        #[kani::proof]
+        #[kani::unwind(40)]
+        fn $name() {
+            ct::reset();
+            unsafe { ONE_SLOT = true };
+            let (mut s, facts) = any_server([true, true]);
+            let n: usize = $n; // concrete per instance: resizing a Vec to a symbolic length is a symbolic-size copy
+            s.set_max_clients(n);
+            let want = if n < NETCODE_MAX_CLIENTS { n } else { NETCODE_MAX_CLIENTS };
+            assert!(s.max_clients == want);
+            assert!(s.clients.len() >= s.max_clients, "the limit was raised but there is no slot for the additional clients: valid handshakes get denied below the limit");
+            assert!(s.clients.len() >= 1 && ns_slot_facts(&s, 0) == facts[0], "existing session disturbed by changing the limit");
+            if s.clients.len() > 1 {
+                assert!(s.clients[1].is_none());
+            }
+            std::mem::forget(s);
+        }
+    };
 }
+ns_set_max_clients!(ns_set_max_clients_n0, 0);
+ns_set_max_clients!(ns_set_max_clients_n1, 1);
+ns_set_max_clients!(ns_set_max_clients_n2, 2);
+ns_set_max_clients!(ns_set_max_clients_n9, 9);
